@@ -45,6 +45,9 @@ package signing
 //@   ensures [C01.fixed-width-S] result == nil ==> len(round.data.S) == 32
 //@   ensures [C01.signature-is-R-then-S] result == nil ==> (len(round.data.Signature) == 64 && bytes(round.data.Signature) == cat(bytes(round.data.R), bytes(round.data.S)))
 //@   ensures [C01.R-is-rx] result == nil ==> beint(bytes(round.data.R)) == val(round.temp.rx)
+//@   site (*big.Int).Rsh#0 let s0 : val(sumS)
+//@   ensures [C01.S-is-the-low-representative-of-the-summed-share] result == nil ==> beint(bytes(round.data.S)) == ite(2 * $s0 > curveN(round.Parameters.ec), curveN(round.Parameters.ec) - $s0, $s0)
+//@   ensures [C01.recovery-byte-is-overflow-bit-and-y-parity-flipped-with-S] result == nil ==> round.data.SignatureRecovery[0] == ite(old(val(round.temp.rx)) > curveN(round.Parameters.ec), 2, 0) + (old(val(round.temp.ry)) % 2 + ite(2 * $s0 > curveN(round.Parameters.ec), 1, 0)) % 2
 //@   ensures [C01.recovery-byte-in-range] result == nil ==> (len(round.data.SignatureRecovery) == 1 && 0 <= round.data.SignatureRecovery[0] && round.data.SignatureRecovery[0] <= 3)
 //@   ensures [C01.message-echo] result == nil ==> ((round.temp.fullBytesLen == 0 ==> bytes(round.data.M) == be(val(round.temp.m))) && (round.temp.fullBytesLen != 0 ==> (len(round.data.M) == round.temp.fullBytesLen && bytes(round.data.M) == cat(zeros(round.temp.fullBytesLen - blen(be(val(round.temp.m)))), be(val(round.temp.m))))))
 //@   loop 0 invariant sumS != nil && 0 <= val(sumS) && val(sumS) < secpN && (sumS == round.temp.si || fresh(sumS)) && modN != nil && val(modN) == secpN && round.started
